@@ -219,7 +219,11 @@ def check_domain(ctx):
 
 def none_tests(ctx, rel, clsname):
     """parameters defaulting to None must be tested by comparison with None, not by truthiness"""
-    for name, fi in ctx.repo.nmethods(rel, clsname).items():
+    none_tests_of(ctx, list(ctx.repo.nmethods(rel, clsname).values()))
+
+
+def none_tests_of(ctx, funcs, what='the legal empty list'):
+    for fi in funcs:
         nones = [p for p, d in fi.defaults().items() if isinstance(d, ast.Constant) and d.value is None]
         for p in nones:
             for n in walk_shallow(fi.node):
@@ -233,8 +237,8 @@ def none_tests(ctx, rel, clsname):
                         core = sub.operand if isinstance(sub, ast.UnaryOp) and isinstance(sub.op, ast.Not) else sub
                         if isinstance(core, ast.Name) and core.id == p:
                             ctx.ob('none-test', fi, n, False,
-                                   'parameter `%s` defaults to None meaning "all"; testing its truthiness also catches the '
-                                   'legal empty list' % p, construct=U(sub))
+                                   'parameter `%s` defaults to None meaning "not given"; testing its truthiness also catches '
+                                   '%s' % (p, what), construct=U(sub))
                         elif isinstance(core, ast.Compare) and isinstance(core.left, ast.Name) and core.left.id == p \
                                 and isinstance(core.comparators[0], ast.Constant) and core.comparators[0].value is None:
                             ctx.ob('none-test', fi, n, True, 'None-default of `%s` tested by comparison with None' % p,
